@@ -16,6 +16,7 @@ ID = 'C05'
 RULE = ('files of BED3/BED6/FASTQ/two-line FASTA/VCF/SAM built from per-record field texts (canonical and non-canonical '
         'spellings, header lines, extra columns); programs of 1..7 steps over two registers drawn from {len, get f, '
         't[slice], t[mask], t[int list], t[i], concatenate, replace(f=array), tolist, write} x {whole read, chunked read}; '
+        'plus integer-list selections with out-of-order interior bounded by first/last row, written unmodified; '
         'non-trivial = the program has an index, concatenate or write after a field access or a replace')
 EXHAUSTIVE = {'quick': False, 'thorough': False}
 TIE = 'correspondence (lazy three-store state machine evaluated in Coq on the same program; eager side compared with the row-list Spec)'
@@ -431,6 +432,30 @@ def _menu_prog(rng, fmt, n0, idxs):
     return prog
 
 
+def _ordered_file(fmt, equal):
+    """Five distinct canonical records; equal=True: all of one byte width; else widths differ except rows 1 and 2."""
+    seqs = ['ACG', 'CGT', 'GTA', 'TAC', 'AAC']
+    quals = ['I#5', '#5I', '5I#', 'II#', '##5']
+    pad = ['', '', '', '', ''] if equal else ['', 'xx', 'yy', 'z', 'www']
+    recs = []
+    for i in range(5):
+        sid = ('r%d' % i if fmt in ('fastq', 'fasta2', 'sam') else 'chr%d' % i) + pad[i]
+        if fmt == 'bed3':
+            rec = [sid, str(10 + i), str(20 + i)]
+        elif fmt == 'bed6':
+            rec = [sid, str(10 + i), str(20 + i), 'n%d' % i, str(5 + i % 4), '+-.+-'[i]]
+        elif fmt == 'fastq':
+            rec = [sid, seqs[i], quals[i]]
+        elif fmt == 'fasta2':
+            rec = [sid, seqs[i]]
+        elif fmt == 'vcf':
+            rec = [sid, str(10 + i), 'rs%d' % i, 'ACGTA'[i], 'CGTAC'[i], '.', '.', 'DP=%d' % i]
+        else:
+            rec = [sid, '0', 'chr1', str(10 + i), '60', '3M', '*', '0', '0', seqs[i], quals[i], 'NM:i:%d' % i]
+        recs.append(rec)
+    return dict(fmt=fmt, recs=recs, header='', extra_cols=[])
+
+
 def generate(tier, seed):
     import itertools
     rng = random.Random(seed * 1000003 + 5)
@@ -473,6 +498,21 @@ def generate(tier, seed):
                 c['prog'] = [['rep', 0, f, _new_vals(rng, fmt, f, 3)], ['get', 0, f], ['write', 0], ['slice', 0, 1, None, None],
                              ['write', 0], ['tolist', 0], ['get', 1, f], ['mask', 1, [True, False, True]], ['write', 1]]
                 cases.append(c)
+    # (d) integer-list selections whose first and last row bound a stretch exactly as long as the selection while the
+    #     interior is out of file order (permutations with a shuffled interior; repeats of equal-width rows), on
+    #     5-record canonical files with equal-width and with unequal-width rows, written without any replacement
+    takes = [[0, 2, 1, 3], [1, 3, 2, 4], [0, 1, 1, 3], [1, 2, 2, 4], [0, 3, 2, 1, 4], [0, 2, 2, 4], [0, 2, 1, 3, 4], [3, 1, 2, 0]]
+    for fmt in FMT_ORDER:
+        for equal in (True, False):
+            base = _ordered_file(fmt, equal)
+            for tk in takes:
+                for prog in ([['take', 0, tk], ['write', 0], ['tolist', 0], ['write', 0]],
+                             [['get', 0, 0], ['take', 0, tk], ['write', 0]],
+                             [['take', 1, tk], ['tolist', 1], ['write', 1], ['slice', 1, None, None, -1], ['write', 1]]):
+                    c = dict(base)
+                    c['chunk'] = None
+                    c['prog'] = prog
+                    cases.append(c)
     cases.sort(key=lambda c: len(c['prog']) + len(c['recs']))
     seen, out = set(), []
     for c in cases:
